@@ -371,6 +371,17 @@ pub fn check_pairs<R: RuleType>(f: &[Node], p: &Pairs<'_, R>, input: &str, o: &m
             problems.push(format!("{via}: FlatPairs Debug {d:?}, expected {wd:?}"));
         }
     }
+    // ---- iterator adaptors on the three views
+    {
+        let keyp = |q: &pest::iterators::Pair<'_, R>| (q.as_span().start(), q.as_span().end(), format!("{:?}", q.as_rule()));
+        let want_top: Vec<(usize, usize, String)> = f.iter().map(|n| (n.start, n.end, n.rule.clone())).collect();
+        check_adaptors("Pairs", &|| p.clone(), &keyp, &want_top, problems, &mut o.transitions);
+        let want_pre: Vec<(usize, usize, String)> = pre.iter().map(|n| (n.start, n.end, n.rule.clone())).collect();
+        check_adaptors("FlatPairs", &|| p.clone().flatten(), &keyp, &want_pre, problems, &mut o.transitions);
+        let mut wt = vec![];
+        flat_tokens(f, &mut wt);
+        check_adaptors("Tokens", &|| p.clone().tokens(), &|t: &pest::Token<'_, R>| tok(t), &wt, problems, &mut o.transitions);
+    }
     // ---- tags
     for t in ["t", "u"] {
         if let Some((all, first)) = catchp(&format!("{via}: find_tagged"), problems, || (p.clone().find_tagged(t).map(|q| (q.as_span().start(), q.as_span().end(), format!("{:?}", q.as_rule()))).collect::<Vec<_>>(), p.find_first_tagged(t).map(|q| (q.as_span().start(), q.as_span().end(), format!("{:?}", q.as_rule()))))) {
@@ -429,5 +440,94 @@ pub fn check_pairs<R: RuleType>(f: &[Node], p: &Pairs<'_, R>, input: &str, o: &m
         if d != wd {
             problems.push(format!("{via}: Tokens Debug {d:?}, expected {wd:?}"));
         }
+    }
+}
+
+
+/// The std iterator adaptors that an implementation may override (`nth`, `nth_back`, `last`,
+/// `count`, `rev`, `step_by`, `skip`, `fold`) are ways of observing the same list: checked from
+/// every cursor state reachable by consuming up to two items at either end.
+pub fn check_adaptors<I, T, K>(what: &str, make: &dyn Fn() -> I, key: &dyn Fn(&T) -> K, want: &[K], problems: &mut Vec<String>, transitions: &mut u64)
+where
+    I: Iterator<Item = T> + DoubleEndedIterator + ExactSizeIterator + Clone,
+    K: PartialEq + std::fmt::Debug + Clone,
+{
+    let n = want.len();
+    let r = std::panic::catch_unwind(std::panic::AssertUnwindSafe(|| {
+        let mut errs: Vec<String> = vec![];
+        for a in 0..=n.min(2) {
+            for b in 0..=(n - a).min(2) {
+                let mut base = make();
+                for _ in 0..a {
+                    base.next();
+                }
+                for _ in 0..b {
+                    base.next_back();
+                }
+                let win = &want[a..n - b];
+                let rem = win.len();
+                let at = format!("{what} after {a} next / {b} next_back");
+                for k in 0..=rem + 1 {
+                    *transitions += 2;
+                    let mut it = base.clone();
+                    let got = it.nth(k).map(|x| key(&x));
+                    let exp = win.get(k).cloned();
+                    let left: Vec<K> = if k < rem { win[k + 1..].to_vec() } else { vec![] };
+                    if got != exp {
+                        errs.push(format!("{at}: nth({k}) = {got:?}, expected {exp:?}"));
+                    } else if it.len() != left.len() || it.size_hint() != (left.len(), Some(left.len())) {
+                        errs.push(format!("{at}: after nth({k}) len {} size_hint {:?}, {} left", it.len(), it.size_hint(), left.len()));
+                    } else if it.map(|x| key(&x)).collect::<Vec<_>>() != left {
+                        errs.push(format!("{at}: items after nth({k}) differ"));
+                    }
+                    let mut it = base.clone();
+                    let got = it.nth_back(k).map(|x| key(&x));
+                    let exp = if k < rem { Some(win[rem - 1 - k].clone()) } else { None };
+                    let left: Vec<K> = if k < rem { win[..rem - 1 - k].to_vec() } else { vec![] };
+                    if got != exp {
+                        errs.push(format!("{at}: nth_back({k}) = {got:?}, expected {exp:?}"));
+                    } else if it.len() != left.len() || it.size_hint() != (left.len(), Some(left.len())) {
+                        errs.push(format!("{at}: after nth_back({k}) len {} size_hint {:?}, {} left", it.len(), it.size_hint(), left.len()));
+                    } else if it.map(|x| key(&x)).collect::<Vec<_>>() != left {
+                        errs.push(format!("{at}: items after nth_back({k}) differ"));
+                    }
+                    let got: Vec<K> = base.clone().skip(k).map(|x| key(&x)).collect();
+                    if got != win[k.min(rem)..].to_vec() {
+                        errs.push(format!("{at}: skip({k}) differs"));
+                    }
+                }
+                *transitions += 6;
+                let got = base.clone().last().map(|x| key(&x));
+                if got != win.last().cloned() {
+                    errs.push(format!("{at}: last() = {got:?}, expected {:?}", win.last()));
+                }
+                if base.clone().count() != rem {
+                    errs.push(format!("{at}: count() = {}, expected {rem}", base.clone().count()));
+                }
+                let got: Vec<K> = base.clone().rev().map(|x| key(&x)).collect();
+                let mut exp = win.to_vec();
+                exp.reverse();
+                if got != exp {
+                    errs.push(format!("{at}: rev() differs"));
+                }
+                let got: Vec<K> = base.clone().step_by(2).map(|x| key(&x)).collect();
+                if got != win.iter().step_by(2).cloned().collect::<Vec<_>>() {
+                    errs.push(format!("{at}: step_by(2) differs"));
+                }
+                let got = base.clone().fold(0usize, |acc, _| acc + 1);
+                if got != rem {
+                    errs.push(format!("{at}: fold counts {got}, expected {rem}"));
+                }
+                let got: Vec<K> = base.clone().rev().skip(1).map(|x| key(&x)).collect();
+                if got != exp.iter().skip(1).cloned().collect::<Vec<_>>() {
+                    errs.push(format!("{at}: rev().skip(1) differs"));
+                }
+            }
+        }
+        errs
+    }));
+    match r {
+        Ok(errs) => problems.extend(errs.into_iter().take(3)),
+        Err(e) => problems.push(format!("{what}: an iterator adaptor panicked: {}", e.downcast_ref::<String>().cloned().or_else(|| e.downcast_ref::<&str>().map(|s| s.to_string())).unwrap_or_default())),
     }
 }
